@@ -670,6 +670,100 @@ static void gnupg_case(World &W)
 	W.S.hist.add(H_RESULT, (uint64_t)(good + 2), (uint64_t)(bad + 2), text);
 }
 
+// ---- session keys encrypted to a public key (PKESK): RSA, ElGamal, ECDH
+static gcry_sexp_t g_elg = NULL, g_ecdh = NULL;
+
+static void pkenc_case(World &W)
+{
+	const Plan &p = W.plan;
+	int alg = (int)(p.get("key", 0) % 3);          // 0 RSA, 1 ElGamal, 2 ECDH (NIST P-256)
+	int fault = (int)(p.get("fault", 0) % 5);      // 0 none, 1 bit flipped in the encrypted session key, 2 other recipient key (RSA), 3 body truncated, 4 ECDH: other fingerprint / KDF parameters
+	int64_t fa = p.get("fa", 0), fb = p.get("fb", 0);
+	if (!g_elg)
+	{
+		size_t eo = 0;
+		if (gcry_sexp_sscan(&g_elg, &eo, PGP_KEY_ELG1, strlen(PGP_KEY_ELG1)) || gcry_sexp_sscan(&g_ecdh, &eo, PGP_KEY_ECDH1, strlen(PGP_KEY_ECDH1))) { fprintf(stderr, "pgp: cannot parse encryption keys\n"); exit(2); }
+	}
+	W.set_clock(0, TK + 86400);
+	// the message: literal data, MDC, SEIPD under a fresh session key
+	tmcg_openpgp_octets_t data; make_doc(W, 2 + (int)(p.get("doc", 0) % 2), data);
+	tmcg_openpgp_octets_t lit, prefix, enc, hash, mdc, mdc_hashing, litmdc, seipd;
+	tmcg_openpgp_secure_octets_t seskey;
+	PGP::PacketLitEncode(data, lit);
+	if (PGP::SymmetricEncryptAES256(lit, seskey, prefix, true, enc)) { W.res.cnt["probe.encrypt_failed"]++; return; }
+	enc.clear();
+	mdc_hashing.insert(mdc_hashing.end(), prefix.begin(), prefix.end()); mdc_hashing.insert(mdc_hashing.end(), lit.begin(), lit.end());
+	mdc_hashing.push_back(0xD3); mdc_hashing.push_back(0x14);
+	PGP::HashCompute(TMCG_OPENPGP_HASHALGO_SHA1, mdc_hashing, hash); PGP::PacketMdcEncode(hash, mdc);
+	litmdc = lit; litmdc.insert(litmdc.end(), mdc.begin(), mdc.end());
+	tmcg_openpgp_secure_octets_t sk0 = seskey; seskey.clear();
+	if (PGP::SymmetricEncryptAES256(litmdc, seskey, prefix, false, enc)) { W.res.cnt["probe.encrypt_failed"]++; return; }
+	PGP::PacketSeipdEncode(enc, seipd);
+	// the session key encrypted to the recipient
+	tmcg_openpgp_octets_t keyid(8, 0), pkesk, fpr(20, 0x5A);
+	gcry_mpi_t me = gcry_mpi_new(2048), gk = gcry_mpi_new(2048), myk = gcry_mpi_new(2048), ecepk = gcry_mpi_new(1024);
+	size_t rkwlen = 0; tmcg_openpgp_byte_t rkw[256]; memset(rkw, 0, sizeof(rkw));
+	gcry_error_t rc;
+	const gcry_sexp_t rsa = g_keys[0].sexp;
+	if (alg == 0) { rc = PGP::AsymmetricEncryptRSA(seskey, rsa, me); if (!rc) PGP::PacketPkeskEncode(keyid, me, pkesk); }
+	else if (alg == 1) { rc = PGP::AsymmetricEncryptElgamal(seskey, g_elg, gk, myk); if (!rc) PGP::PacketPkeskEncode(keyid, gk, myk, pkesk); }
+	else { rc = PGP::AsymmetricEncryptECDH(seskey, g_ecdh, TMCG_OPENPGP_HASHALGO_SHA256, TMCG_OPENPGP_SKALGO_AES128, "NIST P-256", fpr, ecepk, rkwlen, rkw); if (!rc) PGP::PacketPkeskEncode(keyid, ecepk, rkwlen, rkw, pkesk); }
+	gcry_mpi_release(me); gcry_mpi_release(gk); gcry_mpi_release(myk); gcry_mpi_release(ecepk);
+	if (rc) { W.violate("C20", "pk_encrypt_failed", "encrypting a session key to a valid public key failed, algorithm " + std::to_string(alg) + " rc=" + std::to_string((int)gcry_err_code(rc))); return; }
+	// ---- artefact channel
+	bool must_fail = false; std::string what = "none";
+	tmcg_openpgp_octets_t body; tmcg_openpgp_byte_t tag = PGP::PacketBodyExtract(pkesk, 0, body);
+	if (tag != 1 || body.size() < 12) { W.violate("C20", "own_pkesk_unreadable", "emitted PKESK packet cannot be re-read"); return; }
+	const size_t fixed = 10; // version, key ID, algorithm
+	if (fault == 1) { size_t off = fixed + 2 + (size_t)fa % (body.size() - fixed - 2); body[off] ^= (tmcg_openpgp_byte_t)(1 << (fb % 8)); repacket(1, body, pkesk); must_fail = true; what = "bit flipped in the encrypted session key (offset " + std::to_string(off) + ")"; W.res.cnt["fault.art_flip_ciphertext"]++; }
+	else if (fault == 3) { size_t keep = (size_t)fa % body.size(); body.resize(keep); repacket(1, body, pkesk); must_fail = true; what = "PKESK body truncated to " + std::to_string(keep); W.res.cnt["fault.art_trunc_reencoded"]++; }
+	tmcg_openpgp_octets_t wire = pkesk; wire.insert(wire.end(), seipd.begin(), seipd.end());
+	// ---- recipient node
+	W.set_clock(1, TK + 86400 + 10);
+	TMCG_OpenPGP_Message *msg = NULL;
+	bool parsed = PGP::MessageParse(wire, 0, msg);
+	bool got = false; tmcg_openpgp_secure_octets_t sk; tmcg_openpgp_octets_t dec, content; bool decrypted = false;
+	if (parsed && msg && msg->PKESKs.size() == 1)
+	{
+		const TMCG_OpenPGP_PKESK *esk = msg->PKESKs[0];
+		gcry_error_t dr = GPG_ERR_GENERAL;
+		if (alg == 0 && esk->pkalgo == TMCG_OPENPGP_PKALGO_RSA)
+		{
+			gcry_sexp_t rk = rsa;
+			if (fault == 2) { rk = g_keys[3].sexp; must_fail = true; what = "decrypted with another recipient key"; W.res.cnt["fault.wrong_key"]++; }
+			dr = PGP::AsymmetricDecryptRSA(esk->me, rk, sk);
+		}
+		else if (alg == 1 && esk->pkalgo == TMCG_OPENPGP_PKALGO_ELGAMAL) dr = PGP::AsymmetricDecryptElgamal(esk->gk, esk->myk, g_elg, sk);
+		else if (alg == 2 && esk->pkalgo == TMCG_OPENPGP_PKALGO_ECDH)
+		{
+			tmcg_openpgp_octets_t f2 = fpr; tmcg_openpgp_hashalgo_t kh = TMCG_OPENPGP_HASHALGO_SHA256;
+			if (fault == 4) { if (fb & 1) f2[(size_t)fa % f2.size()] ^= 1; else kh = TMCG_OPENPGP_HASHALGO_SHA512; must_fail = true; what = "ECDH key derivation with another recipient fingerprint or hash"; W.res.cnt["fault.wrong_kdf_param"]++; }
+			dr = PGP::AsymmetricDecryptECDH(esk->ecepk, g_ecdh, esk->rkwlen, esk->rkw, kh, TMCG_OPENPGP_SKALGO_AES128, "NIST P-256", f2, sk);
+		}
+		got = (dr == 0);
+		if (got) { decrypted = msg->Decrypt(sk, 0, dec); }
+		if (decrypted)
+		{
+			TMCG_OpenPGP_Message *inner = NULL;
+			if (PGP::MessageParse(dec, 0, inner) && inner) content = inner->literal_data;
+			if (inner) delete inner;
+		}
+	}
+	if (msg) delete msg;
+	// RSA and ElGamal give back algorithm || key || checksum, ECDH algorithm || key (Message::Decrypt takes both forms)
+	bool same_key = got && (sk.size() == seskey.size() || sk.size() + 2 == seskey.size()) && std::equal(sk.begin(), sk.end(), seskey.begin());
+	bool plaintext_back = decrypted && content == data;
+	W.S.hist.add(H_RESULT, (parsed ? 1 : 0) | (got ? 2 : 0) | (same_key ? 4 : 0) | (plaintext_back ? 8 : 0), (uint64_t)fault, (uint64_t)alg);
+	std::string id = std::string(alg == 0 ? "RSA" : (alg == 1 ? "ElGamal" : "ECDH P-256")) + ", " + std::to_string(data.size()) + " octets";
+	if (!must_fail)
+	{
+		if (!same_key) W.violate("C20", "pk_session_key_lost", "session key encrypted to a public key does not come back from decryption; " + id);
+		else if (!plaintext_back) W.violate("C20", "pk_message_not_decrypted", "message encrypted to a public key does not decrypt to the original plaintext; " + id);
+	}
+	else if (plaintext_back) W.violate("C20", "pk_tampered_message_decrypts", "the original plaintext came back although " + what + "; " + id);
+	else if (same_key && fault != 3) W.violate("C20", "pk_tampered_session_key_recovered", "the session key was recovered although " + what + "; " + id);
+}
+
 } // namespace
 
 static bool p_is_c20(const Tier &tier) { return tier.property.empty() || tier.property == "C20"; }
@@ -684,6 +778,7 @@ static Plan pgp_generate(uint64_t seed, const Tier &tier)
 	if (c12 && g.chance(1, 2)) kind = 3;
 	else if (!c12 && g.chance(1, 6)) kind = 4;
 	else if (!c12 && g.chance(1, 30)) kind = 5;
+	else if (g.chance(1, 8)) kind = 6;
 	p.cfg["kind"] = kind;
 	p.cfg["doc"] = (int64_t)g.below(6);
 	p.cfg["fa"] = (int64_t)g.below(1 << 20); p.cfg["fb"] = (int64_t)g.below(8);
@@ -701,6 +796,11 @@ static Plan pgp_generate(uint64_t seed, const Tier &tier)
 		p.cfg["jump"] = g.chance(1, 8) ? (g.chance(1, 2) ? 86400 * 800 : -86400 * 800) : 0;
 		unsigned f = (unsigned)g.below(16);
 		p.cfg["fault"] = !faults ? 0 : (c12 ? (int64_t)(6 + g.below(3)) : (f < 5 ? 0 : (int64_t)(1 + (f - 5) % 9)));
+	}
+	else if (kind == 6)
+	{
+		p.cfg["key"] = (int64_t)g.below(3); p.cfg["fb"] = (int64_t)g.below(256);
+		p.cfg["fault"] = !faults ? 0 : (c12 ? (g.chance(1, 2) ? 1 : 3) : (g.chance(1, 3) ? 0 : (int64_t)g.range(1, 4)));
 	}
 	else if (kind == 5)
 	{
@@ -759,9 +859,9 @@ static void pgp_enumerate(const Tier &tier, std::vector<Plan> &out)
 static RunResult pgp_execute(const Plan &plan)
 {
 	World W(plan);
-	int kind = (int)(plan.get("kind", 0) % 6);
-	if (kind == 0) signature_case(W); else if (kind == 1) message_case(W); else if (kind == 2) aead_case(W); else if (kind == 3) artefact_case(W); else if (kind == 4) file_case(W); else gnupg_case(W);
-	W.res.cnt[kind == 0 ? "probe.signature_cases" : (kind == 1 ? "probe.seipd_cases" : (kind == 2 ? "probe.aead_cases" : (kind == 3 ? "probe.artefact_cases" : (kind == 4 ? "probe.file_cases" : "probe.gnupg_cases"))))]++;
+	int kind = (int)(plan.get("kind", 0) % 7);
+	if (kind == 0) signature_case(W); else if (kind == 1) message_case(W); else if (kind == 2) aead_case(W); else if (kind == 3) artefact_case(W); else if (kind == 4) file_case(W); else if (kind == 5) gnupg_case(W); else pkenc_case(W);
+	W.res.cnt[kind == 0 ? "probe.signature_cases" : (kind == 1 ? "probe.seipd_cases" : (kind == 2 ? "probe.aead_cases" : (kind == 3 ? "probe.artefact_cases" : (kind == 4 ? "probe.file_cases" : (kind == 5 ? "probe.gnupg_cases" : "probe.pkenc_cases")))))]++;
 	W.res.fingerprint = W.S.hist.h ^ derive(plan.seed, 3); W.res.steps = 1; W.res.sim_ms = 0;
 	W.res.nontrivial = plan.get("fault", 0) != 0 || plan.get("now_off", 10) != 10 || plan.get("jump", 0) != 0;
 	return W.res;
@@ -771,9 +871,9 @@ int main(int argc, char **argv)
 {
 	Scenario sc;
 	sc.name = "pgp";
-	sc.real_components = "src/CallasDonnerhackeFinneyShawThayerRFC4880.cc: signature preparation, document hashing, RSA/DSA/ECDSA sign and verify wrappers, packet encoders, SignatureParse/MessageParse and the sub-packet decoders, TMCG_OpenPGP_Signature::CheckValidity/VerifyData, CFB+MDC and AEAD (OCB/EAX) encryption and decryption, TMCG_OpenPGP_Message::Decrypt, PublicKeyBlockParse with TMCG_OpenPGP_Pubkey::CheckSelfSignatures (key + user ID + positive certification built with PacketSigPrepareSelfSignature/CertificationHash); libgcrypt";
+	sc.real_components = "src/CallasDonnerhackeFinneyShawThayerRFC4880.cc: signature preparation, document hashing, RSA/DSA/ECDSA sign and verify wrappers, packet encoders, SignatureParse/MessageParse and the sub-packet decoders, TMCG_OpenPGP_Signature::CheckValidity/VerifyData, CFB+MDC and AEAD (OCB/EAX) encryption and decryption, TMCG_OpenPGP_Message::Decrypt, AsymmetricEncrypt/Decrypt RSA, Elgamal and ECDH (KDFCompute, AES key wrap), PacketPkeskEncode and its decoder, PublicKeyBlockParse with TMCG_OpenPGP_Pubkey::CheckSelfSignatures (key + user ID + positive certification built with PacketSigPrepareSelfSignature/CertificationHash); libgcrypt";
 	sc.stub_components = "the wall clock of the two nodes (per-node simulated clock, jumps), the artefact channel between signer/encryptor and verifier/decryptor; keys are fixed test keys; libgcrypt-internal randomness (DSA/ECDSA nonces, RSA blinding) is outside the seam, so only outcomes enter the fingerprint; document files are real files under build/scratch (no seam for std::ifstream), GnuPG is the installed gpgv binary run as a child process (cases are skipped and counted as probe.gnupg_unavailable when it is missing)";
-	sc.rule = "seeded: detached binary signatures (RSA-2048, DSA-2048, ECDSA P-256, Ed25519) x hash (3 strong, 2 weak) x documents (empty .. 20 kB, mixed line endings) x verifier clock at the boundaries of every validity rule (creation-1, creation, expiry-1, expiry, expiry+1, 25 h +-1 s ahead, signature older than key, clock jump between the checks) against a reference model of the rules, x artefact faults (bit flip in a hashed field / signature value / unhashed area / anywhere, document altered, other key, body truncated with re-encoded length, artefact truncated); SEIPD+MDC messages and AEAD (OCB, EAX; chunk 64..256; lengths around chunk boundaries) x {ciphertext flip, truncation, tag dropped, chunks exchanged or removed, associated data or nonce altered, wrong session key, unprotected packet}; enumerated: signature-packet body truncated at every offset for three key types; distinct = outcome fingerprint per case; whole artefacts (key block = key, user ID, certification; detached signature; SEIPD message) split into packets and damaged structurally: body of any packet truncated / extended with re-encoded length, bit flipped, packet dropped / duplicated / exchanged, then PublicKeyBlockParse+CheckSelfSignatures / SignatureParse+VerifyData / MessageParse+Decrypt; enumerated: every body length 0..299 (thorough 0..599) of every packet of these artefacts; documents in files: the signer hashes a file (text or binary signature; generated lines with LF / CRLF / CR CR LF endings, tabs, NUL and high octets, lines around the 19994-character limit), the stored file loses its tail, gets an octet replaced, inserted or appended, or disappears, the verifier runs Verify(key, filename) - in text mode only damage that changes the canonical form is asserted; cross-check with GnuPG (gpgv 2.2, a second RFC 4880 implementation as verifier node): signatures by the RSA, DSA, ECDSA P-256 and Ed25519 test keys with SHA-256/384/512 over text and binary documents through the octet and the file interface must be GOODSIG in gpgv and BADSIG after one octet of the document changed (enumerated: 4 keys x 3 hashes x 2 modes x 2 interfaces)";
+	sc.rule = "seeded: detached binary signatures (RSA-2048, DSA-2048, ECDSA P-256, Ed25519) x hash (3 strong, 2 weak) x documents (empty .. 20 kB, mixed line endings) x verifier clock at the boundaries of every validity rule (creation-1, creation, expiry-1, expiry, expiry+1, 25 h +-1 s ahead, signature older than key, clock jump between the checks) against a reference model of the rules, x artefact faults (bit flip in a hashed field / signature value / unhashed area / anywhere, document altered, other key, body truncated with re-encoded length, artefact truncated); SEIPD+MDC messages and AEAD (OCB, EAX; chunk 64..256; lengths around chunk boundaries) x {ciphertext flip, truncation, tag dropped, chunks exchanged or removed, associated data or nonce altered, wrong session key, unprotected packet}; enumerated: signature-packet body truncated at every offset for three key types; distinct = outcome fingerprint per case; whole artefacts (key block = key, user ID, certification; detached signature; SEIPD message) split into packets and damaged structurally: body of any packet truncated / extended with re-encoded length, bit flipped, packet dropped / duplicated / exchanged, then PublicKeyBlockParse+CheckSelfSignatures / SignatureParse+VerifyData / MessageParse+Decrypt; enumerated: every body length 0..299 (thorough 0..599) of every packet of these artefacts; documents in files: the signer hashes a file (text or binary signature; generated lines with LF / CRLF / CR CR LF endings, tabs, NUL and high octets, lines around the 19994-character limit), the stored file loses its tail, gets an octet replaced, inserted or appended, or disappears, the verifier runs Verify(key, filename) - in text mode only damage that changes the canonical form is asserted; cross-check with GnuPG (gpgv 2.2, a second RFC 4880 implementation as verifier node): signatures by the RSA, DSA, ECDSA P-256 and Ed25519 test keys with SHA-256/384/512 over text and binary documents through the octet and the file interface must be GOODSIG in gpgv and BADSIG after one octet of the document changed (enumerated: 4 keys x 3 hashes x 2 modes x 2 interfaces); session keys encrypted to a public key (RSA-2048, ElGamal-2048, ECDH NIST P-256 with KDF SHA-256 / AES-128 key wrap): PKESK + SEIPD message, MessageParse, asymmetric decryption, Message::Decrypt, plaintext compared; faults: bit flipped in the encrypted session key, PKESK body truncated, another RSA recipient key, ECDH key derivation with another recipient fingerprint or hash; a well-formed sub-packet (creation time, expiration, key expiration, key flags, revocable) appended to the unhashed area of a signature must not change what the hashed fields say";
 	sc.generate = pgp_generate; sc.execute = pgp_execute; sc.enumerate = pgp_enumerate; sc.worker_init = pgp_init;
 	return runner_main(argc, argv, sc);
 }
